@@ -53,7 +53,7 @@ G1 == [g : {"grid"}, len : 0..L, off : ModVals, lim : ModVals, rev : BOOLEAN, as
 G2 == {x \in [g : {"signal"}, len : 1..L, sig : {"break", "continue"}, at : 1..L, rev : BOOLEAN,
               off : {None, 1}, lim : {None, 2}] : x.at <= x.len}
 G3 == [g : {"range"}, lo : (0 - 2)..3, hi : (0 - 3)..4, rev : BOOLEAN, lim : {None, 2}, asvar : BOOLEAN]
-G4 == [g : {"tablerow"}, len : 0..L, cols : {None} \cup (0..(L + 1)), lim : {None, 3}, off : {None, 1}]
+G4 == [g : {"tablerow"}, len : 0..L, cols : {None} \cup (0..(L + 1)), lim : {None, 3}, off : {None, 1}, rev : BOOLEAN]
 G5 == [g : {"coll"}, coll : {"nil", "undef", "empty", "map0", "map1", "map3", "nilmap", "nilslice", "nilptr", "dropnil", "dropempty"}]
 G6 == [g : {"cycle"}, len : 1..L, nvals : 1..3, grouped : BOOLEAN, twice : BOOLEAN]
 G7 == {x \in [g : {"nest"}, outer : 1..3, inner : 1..3, sig : {"break", "continue"}, at : 1..3] : x.at <= x.inner}
@@ -171,7 +171,7 @@ DeclOut(x) ==
              sel == Selected(items, x.rev, None, x.lim)
          IN  IF sel = <<>> THEN <<69>> ELSE ProbeAll(sel)
     [] x.g = "tablerow" ->
-         LET sel == Selected(Ints(x.len), FALSE, x.off, x.lim)
+         LET sel == Selected(Ints(x.len), x.rev, x.off, x.lim)
              n == Len(sel)
              cols == IF x.cols = None \/ x.cols <= 0 THEN n + 1 ELSE x.cols
              cell(k) == (IF (k - 1) % cols = 0 THEN TrOpen(((k - 1) \div cols) + 1) ELSE <<>>)
@@ -242,7 +242,7 @@ IdOf(x) ==
     [] x.g = "signal" -> "sig-" \o ToString(x.len) \o "-" \o x.sig \o "-" \o ToString(x.at) \o "-" \o ToString(x.rev)
                          \o "-" \o ToString(x.off) \o "-" \o ToString(x.lim)
     [] x.g = "range" -> "range-" \o ToString(x.lo) \o "-" \o ToString(x.hi) \o "-" \o ToString(x.rev) \o "-" \o ToString(x.lim) \o "-" \o ToString(x.asvar)
-    [] x.g = "tablerow" -> "row-" \o ToString(x.len) \o "-" \o ToString(x.cols) \o "-" \o ToString(x.lim) \o "-" \o ToString(x.off)
+    [] x.g = "tablerow" -> "row-" \o ToString(x.len) \o "-" \o ToString(x.cols) \o "-" \o ToString(x.lim) \o "-" \o ToString(x.off) \o "-" \o ToString(x.rev)
     [] x.g = "rowsig" -> "rowsig-" \o ToString(x.len) \o "-" \o ToString(x.cols) \o "-" \o ToString(x.at) \o "-" \o x.sig
     [] x.g = "coll" -> "coll-" \o x.coll
     [] x.g = "cycle" -> "cyc-" \o ToString(x.len) \o "-" \o ToString(x.nvals) \o "-" \o ToString(x.grouped) \o "-" \o ToString(x.twice)
